@@ -16,7 +16,7 @@ Qed.
 Theorem iso_addressed_answered : iso_addressed_answered_stmt.
 Proof.
   unfold iso_addressed_answered_stmt. intros r requester p i Hp Hreq Hbus Hdrv Hprot Hfits Hrwf. cbv zeta.
-  split; [intros Hman; apply respond_mandatory; assumption|].
+  split; [intros Hman Hconf; apply respond_mandatory; assumption|].
   pose proof Hbus as (Ho & Hm & Hi & Hs & Hc).
   destruct (respond_prefix r i Hi Hc) as (P1 & P2 & S1 & Q1 & Q2). cbv zeta in *.
   set (n1 := fst (claim_started (rn r) i)) in *. set (r1 := with_rn r n1).
@@ -160,7 +160,8 @@ Proof.
     cbn [fst snd]. unfold set_pending. replace (rn (with_devx (chk_dev r2 i) i _)) with (rn r2); [exact N|].
     unfold with_devx, chk_dev. destruct (_ && _); reflexivity. }
   destruct (p =? 126998).
-  { apply G. unfold send_config_info. rewrite (chk_dev_ok r1 i Hi1).
+  { apply G. destruct (c_confinfo (r_cfg r1)) as [|c0 cl]; [cbn [fst snd]; apply nnn_refl; exact Hwf1|].
+    unfold send_config_info. rewrite (chk_dev_ok r1 i Hi1).
     match goal with |- context [rsend r1 ?m i] => destruct (rsend r1 m i) as [[r2 ev] ok] eqn:E end.
     pose proof E as N. eapply rsend_nnn in N; [|reflexivity|exact Hwf1|lia|reflexivity|right; right; right; reflexivity|apply Hsrc, nsim_refl|cbn; lia].
     destruct N as (N & _ & _).
@@ -186,7 +187,7 @@ Proof.
   pose proof (respond_broadcast_nnn r requester p i Hreq Hi Hwf Hall) as (A & B & W).
   destruct (respond_iso_request r requester false p i) as [r' ev] eqn:ER. cbn [fst snd] in *.
   split; [exact A|]. split; [exact B|]. split; [exact W|]. split.
-  - intros Hman Hbus Hdrv Hprot Hfits Hrwf. rewrite <- ER. apply respond_mandatory; assumption.
+  - intros Hman Hbus Hdrv Hprot Hfits Hrwf Hconf. rewrite <- ER. apply respond_mandatory; assumption.
   - intros Hman Hc. destruct (not_mandatory p Hman) as (E1 & E2 & E3 & E4).
     destruct (respond_prefix r i Hi Hc) as (P1 & P2 & S1 & Q1 & Q2). cbv zeta in *.
     set (n1 := fst (claim_started (rn r) i)) in *.
@@ -200,6 +201,34 @@ Proof.
     + pair_inv ER. split; [reflexivity|]. split; [exact Q1|exact Q2].
 Qed.
 Print Assumptions iso_broadcast_never_nak.
+
+(* ================= 2b. no configuration information ================= *)
+Theorem iso_no_config_info : iso_no_config_info_stmt.
+Proof.
+  unfold iso_no_config_info_stmt. intros r requester i Hreq Hempty. split.
+  - intros Hbus Hdrv Hprot. cbv zeta.
+    pose proof Hbus as (Ho & Hm & Hi & Hs & Hc).
+    destruct (respond_prefix r i Hi Hc) as (P1 & P2 & S1 & Q1 & Q2). cbv zeta in *.
+    set (n1 := fst (claim_started (rn r) i)) in *. set (r1 := with_rn r n1).
+    unfold respond_iso_request. rewrite P1, P2. fold r1. cbn [Z.eqb Pos.eqb].
+    replace (c_confinfo (r_cfg r1)) with (@nil Z) by (symmetry; exact Hempty).
+    assert (Hbus1: on_bus (rn r1) i) by (apply (on_bus_nsim _ _ _ S1), Hbus).
+    assert (Hdrv1: driver_accepts (rn r1)) by (destruct Hdrv as [A B]; split; cbn [r1 with_rn rn]; [rewrite Q2|rewrite Q1]; assumption).
+    assert (Hpend: pending_flush n1 = pending_flush (rn r)) by (unfold pending_flush; rewrite Q1; reflexivity).
+    set (m := {| m_pri := 6; m_pgn := 59392; m_src := 15; m_dst := requester; m_data := [1; 255; 255; 255; 255] ++ le_bytes 3 126998; m_tp := false |}).
+    assert (Hlen: length (m_data m) = 8%nat) by reflexivity.
+    destruct (rsend_answer r1 m i Hbus1 Hdrv1 eq_refl) as (r2 & ans & E & Er & S2 & Q & Hans);
+      try (cbn [m m_pri m_pgn m_dst]; first [lia | reflexivity]).
+    rewrite E. cbn [fst snd]. exists ans. split; [change (rn r1) with n1; rewrite Hpend; reflexivity|]. split; [exact Q|].
+    unfold m_len in Hans. rewrite Hlen in Hans. cbn [m m_pri m_pgn m_dst m_data] in Hans.
+    replace (6 >=? 128) with false in Hans by reflexivity. cbn [r1 with_rn rn] in Hans.
+    destruct Hprot as [Hnak _]. rewrite (ns_pgn _ _ S1), Hnak in Hans. cbn [Z.of_nat Z.leb Z.compare Pos.of_succ_nat Pos.succ Pos.compare Pos.compare_cont andb negb] in Hans.
+    destruct iso_answers_match_reference as (RN & _). rewrite RN in Hans. rewrite (ns_src _ _ S1) in Hans. exact Hans.
+  - intros Hi Hc. cbv zeta.
+    destruct (respond_prefix r i Hi Hc) as (P1 & P2 & S1 & Q1 & Q2). cbv zeta in *.
+    unfold respond_iso_request. rewrite P1, P2. cbn [Z.eqb Pos.eqb with_rn r_cfg]. rewrite Hempty. cbn [fst snd with_rn rn rx_dev]. auto.
+Qed.
+Print Assumptions iso_no_config_info.
 
 (* ================= 4. dispatch ================= *)
 Lemma find_src_none a : forall devs k, (forall j, (j < length devs)%nat -> d_src (nth j devs ddev) <> a) -> find_src devs a k = -1.
